@@ -1,9 +1,11 @@
 ---------------------------- MODULE MC_Backtest ----------------------------
 (* Bounded worlds for the exhaustive runs of Backtest: K runs over one shared *)
-(* dataset (n, recs), each with its own strategy parameters (acts, fatalAt).  *)
+(* dataset (n, recs), each with its own strategy parameters (acts, fatalAt) and source fault (srcFailAt). *)
 EXTENDS Backtest
 
-P(n, recs, acts, fatalAt) == [n |-> n, recs |-> recs, acts |-> acts, fatalAt |-> fatalAt]
+PS(n, recs, acts, fatalAt, srcFailAt) ==
+    [n |-> n, recs |-> recs, acts |-> acts, fatalAt |-> fatalAt, srcFailAt |-> srcFailAt]
+P(n, recs, acts, fatalAt) == PS(n, recs, acts, fatalAt, {})
 
 \* quick: dataset of 3 market events; run 1 opens one order (event 2), run 2 two orders (1 and 3)
 PA == P(3, {}, {2}, {})
@@ -15,6 +17,9 @@ PD == P(3, {2}, {1}, {})
 PE == P(4, {3}, {1, 4}, {})
 PF == P(4, {3}, {2}, {})
 PG == P(4, {2}, {1, 4}, {4})
+\* the data source fails: after 2 of 3 items (an order is open by then) / before the first item
+PH == PS(3, {}, {1}, {}, {2})
+PI == PS(3, {2}, {3}, {}, {0})
 
 Two(p, q) == (1 :> p) @@ (2 :> q)
 One(p)    == (1 :> p)
@@ -28,4 +33,8 @@ Params_D  == One(PD)
 Params_E  == One(PE)
 Params_F  == One(PF)
 Params_G  == One(PG)
+Params_HA == Two(PH, PA)
+Params_IB == Two(PI, PB)
+Params_H  == One(PH)
+Params_I  == One(PI)
 =============================================================================
